@@ -225,7 +225,10 @@ def is_stable(name, tree):
 
 
 # ------------------------------------------------------------------ one document
-def record(raw, lang="en", title="Verif", doc_id=0, lossless=False):
+def record(raw, lang="en", title="Verif", doc_id=0, lossless=False, cleaner=None, keep=None):
+    """cleaner: a TreeCleaner that has already cleaned another article and is re-pointed at this one,
+    as mwlib.writers.rl.writer does (self.tree_cleaner.tree = art; clean_all()) and as clean() does
+    for the children of a Book; keep: a list that receives the cleaner used (for the next article)"""
     from mwlib.parser import advtree
     from mwlib.parser.refine.uparser import parse_string
     from mwlib.parser.treecleaner import TreeCleaner
@@ -251,7 +254,15 @@ def record(raw, lang="en", title="Verif", doc_id=0, lossless=False):
     snap = dict(prev)
     snap.update({"pass": "build", "status": "ok", "stable": True, "errkey": "", "same": False})
     trace["snaps"].append(snap)
-    tc = TreeCleaner(tree, save_reports=True)
+    if cleaner is None:
+        tc = TreeCleaner(tree, save_reports=True)
+    else:
+        tc = cleaner
+        tc.tree = tree
+        del tc.reports[:]
+    trace["reused_cleaner"] = cleaner is not None
+    if keep is not None:
+        keep.append(tc)
     trace["order"] = list(TreeCleaner.cleaner_methods)
     for name in TreeCleaner.cleaner_methods:
         nrep = len(tc.get_reports())
@@ -325,6 +336,7 @@ CONSTANTS
   NAttrs = %(nattrs)d
   NDimProps = %(ndp)d
   NDimShapes = %(nds)d
+  NReadProps = %(nrp)d
   NSnips = %(nsnips)d
   NCont = %(ncont)d
   NBlk = %(nblk)d
@@ -372,7 +384,7 @@ def doc_cfg(maxprod, maxwords, palette=False, free=False, variants=True, maxline
             witness=()):
     return DOC_CFG % dict(maxprod=maxprod, maxwords=maxwords, palette=str(palette).upper(), free=str(free).upper(),
                           variants=str(variants).upper(), maxline=maxline, minout=minout, ordinary=str(ordinary).upper(),
-                          nattrs=len(W.ATTRS) if palette else 0, ndp=len(W.DIM_PROPS) if palette else 0, nds=len(W.DIM_SHAPES) if palette else 0, nsnips=len(W.SNIPS) if palette else 0,
+                          nattrs=len(W.ATTRS) if palette else 0, ndp=len(W.DIM_PROPS) if palette else 0, nds=len(W.DIM_SHAPES) if palette else 0, nrp=W.N_READ_PROPS if palette else 0, nsnips=len(W.SNIPS) if palette else 0,
                           nlex=len(W.LEXEMES) if free else 0, nestmode=nestmode, witness=", ".join(str(c) for c in sorted(set(witness))),
                           ncont=len(W.NEST_CONT) if palette else 0, nblk=len(W.NEST_BLK) if palette else 0,
                           nhost=len(W.NEST_HOST) if palette else 0)
@@ -387,9 +399,9 @@ def generate(ctx, scale=1.0, profile="all"):
         # name, cfg, traces per worker, depth
         ("clean", doc_cfg(40, 30), per(500 if quick else 7000), 45),
         ("cleanlong", doc_cfg(70, 60, maxline=9, minout=120), per(200 if quick else 2500), 75),
-        ("palette", doc_cfg(40, 30, palette=True), per(600 if quick else 9000), 45),
+        ("palette", doc_cfg(40, 30, palette=True), per(500 if quick else 9000), 45),
         ("palettelong", doc_cfg(70, 60, palette=True, maxline=9, minout=120), per(300 if quick else 3000), 75),
-        ("free", doc_cfg(30, 20, palette=True, free=True, minout=40), per(250 if quick else 4000), 35),
+        ("free", doc_cfg(30, 20, palette=True, free=True, minout=40), per(200 if quick else 4000), 35),
     ]
     if profile == "lossless":               # C07: only the clean grammar, more of it
         plans = [("clean", doc_cfg(40, 30), per(1500 if quick else 15000), 45),
@@ -433,6 +445,20 @@ def generate(ctx, scale=1.0, profile="all"):
                     seen.add(raw)
                     inputs.append({"raw": raw, "kind": "nest", "doc": d, "lossless": False})
         gen_stats["nest"] = len(inputs) - n0
+    # clean grammar with room for the macro productions (tall-cell table): all documents of <= 5 productions
+    res = tlc.run(ctx, "WikiDoc", doc_cfg(5, 26, variants=False, maxline=100, minout=0, ordinary=True).replace(
+        "MaxTables = 2", "MaxTables = 1"), name="WikiDoc_tall", timeout=1500, heap="4g")
+    if not res.ok:
+        ctx.machinery("generator spec WikiDoc violates its own invariant (%s %s) in the tall-cell plan" % (res.kind, res.name))
+    n0 = len(inputs)
+    for d in sorted(res.emitted, key=lambda d: json.dumps(d["out"], sort_keys=True)):
+        if not any(t["t"] == "tb" for t in d["out"]):
+            continue
+        raw = W.concretise(d)
+        if raw not in seen:
+            seen.add(raw)
+            inputs.append({"raw": raw, "kind": "tall", "doc": d, "lossless": bool(d["flags"]["lossless"])})
+    gen_stats["tall"] = len(inputs) - n0
     # all tiny documents of the clean grammar
     res = tlc.run(ctx, "WikiDoc", doc_cfg(7 if quick else 8, 3, variants=False, maxline=100, minout=0, ordinary=True).replace(
         "MaxTables = 2", "MaxTables = 1"), name="WikiDoc_tiny", timeout=1500, heap="4g")
@@ -514,9 +540,14 @@ def _record_worker(chunk):
     import logging
     logging.disable(logging.CRITICAL)           # advtree logs every unknown tag
     out = []
-    for inp in chunk:
+    carried = None
+    for k, inp in enumerate(chunk):
         try:
-            tr = record(inp["raw"], inp["lang"], doc_id=inp["id"], lossless=inp["lossless"])
+            # every second article is cleaned by the cleaner that has just cleaned the previous one
+            keep = []
+            tr = record(inp["raw"], inp["lang"], doc_id=inp["id"], lossless=inp["lossless"],
+                        cleaner=carried if k % 2 == 1 else None, keep=keep)
+            carried = keep[0] if (keep and k % 2 == 0) else None
         except MemoryError:
             import gc
             gc.collect()
@@ -610,7 +641,15 @@ def validate(ctx, traces, prop, name="batch"):
     cfg = TRACE_CFG % dict(c05=str(prop == "C05").upper(), c06=str(prop == "C06").upper(), c07=str(prop == "C07").upper(),
                            known=", ".join('"%s"' % k.replace('"', "'") for k in known),
                            steps=", ".join('"%s"' % k for k in known_steps(prop)))
-    shards = [c for c in chunks(usable, ctx.ncpu) if c]
+    # shards of about equal weight (a trace with many words / nodes costs TLC and JSON far more)
+    def weight(t):
+        return 60 + sum(s["n"] + 2 * len(s["words"]) for s in t["snaps"] if not s["same"])
+    bins = [[0, []] for _ in range(min(ctx.ncpu, len(usable)))]
+    for t in sorted(usable, key=lambda t: (-weight(t), t["id"])):
+        b = min(bins, key=lambda b: b[0])
+        b[0] += weight(t)
+        b[1].append(t)
+    shards = [sorted(b[1], key=lambda t: t["id"]) for b in bins if b[1]]
     d = os.path.join(ctx.scratch, "traces-" + name)
     os.makedirs(d, exist_ok=True)
 
